@@ -3,7 +3,7 @@ stations as removal set, a substituted clock.  geodepy.gnss needs pandas only at
 import os, sys, random, itertools, math, re, tempfile, shutil, types, datetime as _dt
 
 RULES = {
-    'C18.B.remove_stns': 'generated files: 1..7 stations (quick) / 1..12 (thorough), solution numbers 1..3, with/without velocities, L and U matrices, random SPD covariances, EVERY subset of stations as removal set for <= 6 stations (sampled above), wall clock substituted at 00:00:00, 00:16:39, 02:46:39, 02:46:40, 12:00:00, 23:59:59 and year boundaries: output well formed (fixed-width header, every block closed on its own line, %ENDSNX last), estimates = remaining ones in order and renumbered, covariance = original minus removed rows/columns, header parameter count',
+    'C18.B.remove_stns': 'generated files: 1..7 station solutions (quick) / 1..12 (thorough), solution numbers 1..3, in 30 % of the files one site with a discontinuity (two solutions: one SITE/ID line, two EPOCHS lines, two sets of estimates), latitudes written -0 MM SS.S, with/without velocities, L and U matrices, random SPD covariances, EVERY subset of stations as removal set for <= 6 stations (sampled above), wall clock substituted at 00:00:00, 00:16:39, 02:46:39, 02:46:40, 12:00:00, 23:59:59 and year boundaries: output well formed (fixed-width header, every block closed on its own line, %ENDSNX last), estimates = remaining ones in order and renumbered, covariance = original minus removed rows/columns, header parameter count',
     'C18.B.remove_velocity': 'files with velocities: output keeps exactly the position estimates (renumbered) and their covariance sub-matrix, header count halved and fixed width, velocity flag removed, well formed',
     'C18.B.remove_matrixzeros': 'files whose covariance has all-zero matrix lines (uncorrelated stations) or element-wise random zeros (lines with every mix of zero and non-zero elements): those lines are dropped, every other line is unchanged and on its own line',
     'C18.B.readers': 'read_sinex_estimate, read_sinex_matrix, read_sinex_sites return exactly the values written',
@@ -36,6 +36,20 @@ def gen_solution(rng, nst, vel, tri):
         st.append(dict(code=nm, pt=' A', soln=rng.randint(1, 3), domes='%05dM%03d' % (rng.randint(10000, 99999), rng.randint(1, 9)), desc=('Station ' + nm).ljust(22)[:22],
                        lon=(rng.randint(0, 359), rng.randint(0, 59), rng.randint(0, 599) / 10), lat=(rng.randint(-89, 89), rng.randint(0, 59), rng.randint(0, 599) / 10),
                        h=rng.randint(-500, 89999) / 10, xyz=[rng.uniform(-6e6, 6e6) for _ in range(3)], v=[rng.uniform(-0.1, 0.1) for _ in range(3)]))
+    multi = False
+    if nst >= 2 and rng.random() < 0.3:
+        # a station with a discontinuity: two solutions (1 and 2) of the same site - one SITE/ID line, two EPOCHS lines, two sets of estimates
+        i = rng.randrange(nst - 1)
+        twin = dict(st[i])
+        twin['xyz'] = [v + rng.uniform(-0.05, 0.05) for v in st[i]['xyz']]
+        twin['v'] = [rng.uniform(-0.1, 0.1) for _ in range(3)]
+        st[i]['soln'], twin['soln'] = 1, 2
+        st[i + 1] = twin
+        multi = True
+    for s_ in st:               # latitudes between 0 and -1 degree are written ' -0 MM SS.S'
+        if rng.random() < 0.15:
+            s_['lat'] = (0, s_['lat'][1], s_['lat'][2])
+            s_['lat_neg'] = rng.random() < 0.7
     npar = nst * (6 if vel else 3)
     G = [[rng.gauss(0, 1) for _ in range(npar)] for _ in range(npar)]
     M = [[sum(G[i][k] * G[j][k] for k in range(npar)) * 1e-6 for j in range(npar)] for i in range(npar)]
@@ -51,7 +65,7 @@ def gen_solution(rng, nst, vel, tri):
                 if rng.random() < 0.6:
                     M[i][j] = M[j][i] = 0.0
     M = [[float('%.14e' % M[max(i, j)][min(i, j)]) for j in range(npar)] for i in range(npar)]
-    return dict(stations=st, vel=vel, tri=tri, M=M, npar=npar, agency=rng.choice(['AUS', 'VER', 'IGS', 'GAV']))
+    return dict(stations=st, vel=vel, tri=tri, M=M, npar=npar, agency=rng.choice(['AUS', 'VER', 'IGS', 'GAV']), multi=multi)
 
 
 def est_lines(sol):
@@ -82,8 +96,13 @@ def write_sinex(path, sol):
     L = []
     L.append('%%=SNX 2.02 %s 20:001:00000 IGS 19:001:00000 19:365:86370 P %05d 2 S%s' % (sol['agency'], sol['npar'], ' V' if sol['vel'] else ''))
     L += [SEP, '+FILE/COMMENT', ' generated by the verification writer', '-FILE/COMMENT', SEP, '+SITE/ID', '*CODE PT __DOMES__ T _STATION DESCRIPTION__ APPROX_LON_ APPROX_LAT_ _APP_H_']
+    seen_codes = set()
     for s in sol['stations']:
-        L.append(' %4s %2s %9s %1s %22s %3d %2d %4.1f %3d %2d %4.1f %7.1f' % (s['code'], s['pt'], s['domes'], 'P', s['desc'], s['lon'][0], s['lon'][1], s['lon'][2], s['lat'][0], s['lat'][1], s['lat'][2], s['h']))
+        if s['code'] in seen_codes:
+            continue
+        seen_codes.add(s['code'])
+        latdeg = '%3d' % s['lat'][0] if not (s['lat'][0] == 0 and s.get('lat_neg')) else ' -0'
+        L.append(' %4s %2s %9s %1s %22s %3d %2d %4.1f %s %2d %4.1f %7.1f' % (s['code'], s['pt'], s['domes'], 'P', s['desc'], s['lon'][0], s['lon'][1], s['lon'][2], latdeg, s['lat'][1], s['lat'][2], s['h']))
     L += ['-SITE/ID', SEP, '+SOLUTION/EPOCHS', '*CODE PT SOLN T _DATA_START_ __DATA_END__ _MEAN_EPOCH_']
     for s in sol['stations']:
         L.append(' %4s %2s %4d %1s %12s %12s %12s' % (s['code'], s['pt'], s['soln'], 'P', '19:001:00000', '19:365:86370', '19:183:43185'))
@@ -211,6 +230,10 @@ def work(item):
             r['n'] += 1
             r['keys'].add((item['seed'], fi))
             try:
+                uniq = []
+                for s_ in sol['stations']:
+                    if s_['code'] not in [u['code'] for u in uniq]:
+                        uniq.append(s_)
                 est = g.read_sinex_estimate(src)
                 ok = len(est) == nst
                 for e_, s in zip(est, sol['stations']):
@@ -234,10 +257,12 @@ def work(item):
                 if not okm:
                     r['failures'].append(dict(input=base, what='read_sinex_matrix does not return the written values'))
                 sites = g.read_sinex_sites(src)
-                oks = len(sites) == nst
-                for q, s in zip(sites, sol['stations']):
+                oks = len(sites) == len(uniq)
+                for q, s in zip(sites, uniq):
+                    lat_neg = s['lat'][0] < 0 or (s['lat'][0] == 0 and bool(s.get('lat_neg')) and (s['lat'][1] > 0 or s['lat'][2] > 0))
                     oks = oks and q[0] == s['code'] and q[2] == s['domes'] and q[3] == 'P' and q[4] == s['desc'].lstrip() and q[7] == s['h'] \
-                        and (q[5].degree, q[5].minute, q[5].second) == (abs(s['lon'][0]), s['lon'][1], s['lon'][2]) and (q[6].degree, q[6].minute, q[6].second) == (abs(s['lat'][0]), s['lat'][1], s['lat'][2])
+                        and (q[5].degree, q[5].minute, q[5].second) == (abs(s['lon'][0]), s['lon'][1], s['lon'][2]) and (q[6].degree, q[6].minute, q[6].second) == (abs(s['lat'][0]), s['lat'][1], s['lat'][2]) \
+                        and (q[6].dec() < 0) == lat_neg and (q[5].dec() < 0) == (s['lon'][0] < 0)
                 if not oks:
                     r['failures'].append(dict(input=dict(base, example_height=sol['stations'][0]['h']), what='read_sinex_sites does not return the written values (code, domes, description, lon, lat, height)',
                                               got=repr(sites[0])[:200] if sites else None))
@@ -245,7 +270,9 @@ def work(item):
                 r['failures'].append(dict(input=base, what='reader raised %s: %s' % (type(ex).__name__, str(ex)[:100])))
             # ---------------- station removal: every subset (<= 6 stations) / sampled, clock substituted
             codes = [s['code'] for s in sol['stations']]
-            subsets = [c for k in range(0, nst) for c in itertools.combinations(codes, k)] if nst <= 6 else [tuple(rng.sample(codes, rng.randint(0, nst - 1))) for _ in range(40)]
+            ucodes = [u['code'] for u in uniq] if 'uniq' in dir() else sorted(set(codes), key=codes.index)
+            nu = len(ucodes)
+            subsets = [c for k in range(0, nu) for c in itertools.combinations(ucodes, k)] if nu <= 6 else [tuple(rng.sample(ucodes, rng.randint(0, nu - 1))) for _ in range(40)]
             r = R['C18.B.remove_stns']
             for si, rem in enumerate(subsets):
                 clk = CLOCKS[(si + fi) % len(CLOCKS)]
@@ -265,7 +292,11 @@ def work(item):
                         pr.append('estimates are not the remaining ones in order, renumbered consecutively')
                     if out['M'] != Mexp or out['tri'] != tri:
                         pr.append('covariance is not the original with the removed rows/columns deleted')
-                    if out['sites'] != [codes[i] for i in keep] or out['epochs'] != [codes[i] for i in keep]:
+                    ksites = []
+                    for i in keep:
+                        if codes[i] not in ksites:
+                            ksites.append(codes[i])
+                    if out['sites'] != ksites or out['epochs'] != [codes[i] for i in keep]:
                         pr.append('SITE/ID or SOLUTION/EPOCHS do not list exactly the remaining stations')
                     if pr:
                         r['failures'].append(dict(input=inp, what='; '.join(pr)[:400]))
